@@ -1691,10 +1691,41 @@ def parse_tie(ctx, res, cases, model):
                 res.disagree({'what': 'parse of a command line: ex.c (probe_exparse) and ExDefs (extracted) differ',
                               'input': {'line': l.decode('latin-1')}, 'implementation': a[:400], 'model': mout[i][:400]})
     res.extra['parse tie lines'] = len(lines)
+    # the length guard of ex_exec (C06_tr_ex_exec_long): the REAL ex_exec (probe request `exec`, sanitized build) on lines of EXLEN - 1,
+    # EXLEN and EXLEN + 1 bytes that, if they are parsed at all, move the current line of a five-line buffer from 0 to 2
+    exlen = 512
+    for l in open(os.path.join(vlib.REPO, 'vi.h'), errors='replace'):
+        mm = re.match(r'#define\s+EXLEN\s+(\d+)', l)
+        if mm:
+            exlen = int(mm.group(1))
+    pa = vlib.build_probe('exparse', includes=['ex', 'term'], asan=True)
+    env = dict(os.environ, ASAN_OPTIONS='detect_leaks=0:exitcode=101', UBSAN_OPTIONS='halt_on_error=1:exitcode=102:print_stacktrace=1')
+    for n in (exlen - 1, exlen, exlen + 1):
+        for ln in (b':' * (n - 1) + b'3', b'3' + b' ' * (n - 1), b'0' * (n - 1) + b'3'):
+            rc, o, err = vlib.run_lines(pa, ['exec ' + ln.hex()], timeout=120, env=env)
+            res.evaluations += 1
+            res.count('ex_exec on a line of EXLEN%+d bytes' % (n - exlen))
+            a = o[0] if o else ''
+            want = 'xrow=2' if n < exlen else '1 xrow=0'
+            if rc != 0 or not a.endswith(want):
+                res.violation({'what': 'ex_exec on a command line of %d bytes (EXLEN = %d): %s' % (n, exlen,
+                                       'not executed' if n < exlen else 'not refused before the scanners ran (loc / cmd / arg hold EXLEN bytes)'),
+                               'input': {'exec_line': ln.decode('latin-1')}, 'expected': want,
+                               'observed': (a + (' rc=%d ' % rc) + err[:300]) if rc else a})
 
 
 def parse_replay(res, rp):
     """re-run a recorded violation of the parser tie: the line and the pieces it was rendered from"""
+    if 'exec_line' in rp['input']:
+        pa = vlib.build_probe('exparse', includes=['ex', 'term'], asan=True)
+        env = dict(os.environ, ASAN_OPTIONS='detect_leaks=0:exitcode=101', UBSAN_OPTIONS='halt_on_error=1:exitcode=102:print_stacktrace=1')
+        rc, o, err = vlib.run_lines(pa, ['exec ' + rp['input']['exec_line'].encode('latin-1').hex()], timeout=120, env=env)
+        res.evaluations += 1
+        a = o[0] if o else ''
+        if rc != 0 or not a.endswith(rp.get('expected', '')):
+            res.violation({'what': rp.get('what', 'ex_exec at the EXLEN bound'), 'input': rp['input'], 'expected': rp.get('expected'),
+                           'observed': (a + (' rc=%d ' % rc) + err[:300]) if rc else a})
+        return
     probe = vlib.build_probe('exparse', includes=['ex', 'term'])
     l = rp['input']['line'].encode('latin-1')
     rc, out, err = vlib.run_lines(probe, ['parse ' + l.hex()], timeout=60)
@@ -1718,7 +1749,7 @@ def run(ctx):
     if ctx.replay:
         rp = json.load(open(ctx.replay))
         c = rp.get('input', rp)
-        if isinstance(c, dict) and 'line' in c and 'steps' not in c:
+        if isinstance(c, dict) and ('line' in c or 'exec_line' in c) and 'steps' not in c:
             parse_replay(res, rp)
             return
         fix_json(c)
